@@ -115,10 +115,10 @@ theorem exTree_shape : shapeCheck (PTree.ofTree exTree) = true := by decide +ker
 theorem ex_ready : C03.Ready (wsOfTree exTree) :=
   ⟨(wsOfTree_wf exTree_shape).1, (wsOfTree_wf exTree_shape).2.1⟩
 
-/-- the log of the example: `d`, `f`, the field that the `let` adds, and the reference from the
-`let` to the field it overrides -/
+/-- the log of the example: `d`, `f`, and the reference from the `let` to the field it sets (a field the
+record declares itself keeps its entry, the `let` adds none) -/
 def exOps : List Op :=
-  [.define ['d'] ⟨0, 4, 5⟩, .define ['f'] ⟨0, 12, 13⟩, .define ['f'] ⟨0, 23, 24⟩, .reference 1 ⟨0, 23, 24⟩]
+  [.define ['d'] ⟨0, 4, 5⟩, .define ['f'] ⟨0, 12, 13⟩, .reference 1 ⟨0, 23, 24⟩]
 
 theorem ex_index : ∃ r, Index.index (wsOfTree exTree) = .ok r ∧ opsOf r = exOps := by
   have hk : (match Index.index (wsOfTree exTree) with
@@ -181,7 +181,7 @@ theorem bad_ready : C03.Ready (wsOfTree badTree) :=
   ⟨(wsOfTree_wf badTree_shape).1, (wsOfTree_wf badTree_shape).2.1⟩
 
 def badOps : List Op :=
-  [.define [] ⟨0, 0, 0⟩, .define [] ⟨0, 0, 0⟩, .define [] ⟨0, 0, 0⟩, .reference 1 ⟨0, 0, 0⟩, .define [] ⟨0, 0, 0⟩]
+  [.define [] ⟨0, 0, 0⟩, .define [] ⟨0, 0, 0⟩, .reference 1 ⟨0, 0, 0⟩, .define [] ⟨0, 0, 0⟩]
 
 theorem bad_index : ∃ r, Index.index (wsOfTree badTree) = .ok r ∧ opsOf r = badOps := by
   have hk : (match Index.index (wsOfTree badTree) with
@@ -192,7 +192,7 @@ theorem bad_index : ∃ r, Index.index (wsOfTree badTree) = .ok r ∧ opsOf r = 
   | ok r => rw [hr] at hk; exact ⟨r, rfl, opsBeq_eq hk⟩
 
 /-- **`Ready` alone does not give `RefStable`**: on this (artificial) ready workspace all tokens are
-empty, the three fields and the `let` share the range 0..0, and the last `define` re-registers the
+empty, the fields and the `let` share the range 0..0, and the last `define` re-registers the
 range of the reference for another symbol.  For workspaces built by `buildWorkspace` the
 identifier tokens are non-empty; `RefStable` stays a hypothesis of
 `index_goto_from_references_agrees` there. -/
@@ -202,8 +202,8 @@ theorem refStable_not_from_ready :
   refine ⟨_, bad_ready, r, hr, ?_⟩
   rw [ho]
   intro h
-  have := h [.define [] ⟨0, 0, 0⟩, .define [] ⟨0, 0, 0⟩, .define [] ⟨0, 0, 0⟩] [.define [] ⟨0, 0, 0⟩] 1 ⟨0, 0, 0⟩ rfl
-    (⟨0, 0, 0⟩, 3) (by simp [registrations, RefStable.registrations.count]) rfl
+  have := h [.define [] ⟨0, 0, 0⟩, .define [] ⟨0, 0, 0⟩] [.define [] ⟨0, 0, 0⟩] 1 ⟨0, 0, 0⟩ rfl
+    (⟨0, 0, 0⟩, 2) (by simp [registrations, RefStable.registrations.count]) rfl
   simp at this
 
 /-- the other four properties do hold of this log (they are theorems for every ready workspace) -/
